@@ -87,7 +87,7 @@ Proof.
 Qed.
 
 (* ---- one link ---- *)
-Lemma ug_link_spec lo wt obj i l : NoDup (up_ids wt) ->
+Lemma up_ug_link_spec lo wt obj i l : NoDup (up_ids wt) ->
   (exists ext, up_ids (fst (ug_link lo wt obj i l)) = up_ids wt ++ ext) /\
   NoDup (up_ids (fst (ug_link lo wt obj i l))) /\
   nth_error (up_ids (fst (ug_link lo wt obj i l))) (snd (ug_link lo wt obj i l)) = Some i.
@@ -110,7 +110,7 @@ Lemma up_dir_entries_cons f fs : up_dir_entries (f :: fs) =
   match pf_entry f with Some e => if pf_isdir f then [e] else [] | None => [] end ++ up_dir_entries fs.
 Proof. reflexivity. Qed.
 
-Lemma ug_kids_spec lo dobj : forall cs tags icbs j (next : nat) wt fs q (nx : nat) wt',
+Lemma up_ug_kids_spec lo dobj : forall cs tags icbs j (next : nat) wt fs q (nx : nat) wt',
   length tags = length cs -> length icbs = length cs -> NoDup (up_ids wt) ->
   ug_kids lo dobj cs tags icbs j next wt = (fs, q, nx, wt') ->
   nx = (next + length cs)%nat /\
@@ -123,7 +123,7 @@ Proof.
     split; [exists []; rewrite app_nil_r; reflexivity|]. split; [exact Hnd|]. split; [constructor|]. split; reflexivity.
   - destruct tags as [|tg tags]; [discriminate|]. destruct icbs as [|icb icbs]; [discriminate|].
     cbn [length] in Ht, Hi. apply Nat.succ_inj in Ht. apply Nat.succ_inj in Hi. destruct c as [n l i|n sub]; cbn [ug_kids] in H.
-    + pose proof (ug_link_spec lo wt next i l Hnd) as HL. destruct (ug_link lo wt next i l) as [wt1 ix] eqn:EL.
+    + pose proof (up_ug_link_spec lo wt next i l Hnd) as HL. destruct (ug_link lo wt next i l) as [wt1 ix] eqn:EL.
       cbn [fst snd] in HL. destruct HL as ((ext1 & E1) & Hnd1 & Hix).
       destruct (ug_kids lo dobj r tags icbs j (S next) wt1) as [[[fs1 q1] nx1] wt1'] eqn:EK. inversion H; subst fs q nx wt'.
       destruct (IH _ _ _ _ _ _ _ _ _ Ht Hi Hnd1 EK) as (Hnx & (ext2 & E2) & Hnd2 & HF & Hobjs & Hq).
@@ -160,7 +160,7 @@ Proof.
   - split; [exact I1|]. intros x Hin. right. exact (I2 _ Hin).
 Qed.
 
-Lemma ul_kid_icbs_length lo : forall cs j, length (ul_kid_icbs lo j cs) = length cs.
+Lemma up_kid_icbs_length lo : forall cs j, length (ul_kid_icbs lo j cs) = length cs.
 Proof. induction cs as [|c r IH]; intros j; [reflexivity|]. destruct c; cbn [ul_kid_icbs length]; rewrite IH; reflexivity. Qed.
 
 Lemma up_kid0_lb rs : forall k n m r, up_kid0 k n rs -> nth_error rs m = Some r -> (k + m < dr_kid0 r)%nat.
@@ -184,7 +184,7 @@ Section Dirs.
     NoDup (map pd_obj ds) /\ Forall (fun d => In (pd_obj d) objs \/ (next <= pd_obj d)%nat) ds /\
     exists total, flat_map (fun d => up_fid_objs (pd_fids d)) ds = seq next total.
 
-  Lemma ug_dirs_spec : forall rs k objs (next : nat) wt ds wt',
+  Lemma up_ug_dirs_spec : forall rs k objs (next : nat) wt ds wt',
     Forall (fun r => length (ul_dir_tags lo r) = S (length (dr_node r))) rs ->
     up_kid0 k (length objs) rs ->
     (forall m r, nth_error rs m = Some r -> (dr_kid0 r + length (ul_dir_children (dr_node r)) <= k + length rs)%nat) ->
@@ -206,7 +206,7 @@ Section Dirs.
       destruct (ug_kids lo o (dr_node r) tags (ul_kid_icbs lo (dr_kid0 r) (dr_node r)) (dr_kid0 r) next wt)
         as [[[fs q] nx] wt1] eqn:EK.
       destruct (ug_dirs lo rs' (objs' ++ map pe_obj q) nx wt1) as [ds2 wt2] eqn:ED. inversion H; subst ds wt'. clear H.
-      destruct (ug_kids_spec lo o _ _ _ _ _ _ _ _ _ _ Hl0 (ul_kid_icbs_length lo _ _) Hnd EK)
+      destruct (up_ug_kids_spec lo o _ _ _ _ _ _ _ _ _ _ Hl0 (up_kid_icbs_length lo _ _) Hnd EK)
         as (Hnx & (ext1 & E1) & Hnd1 & HF & Hobjs & Hq).
       pose proof (up_dir_entries_count _ _ _ _ HF) as Hcount. rewrite <- Hq in Hcount.
       assert (Hseqnd : NoDup (up_fid_objs fs)) by (rewrite Hobjs; apply seq_NoDup).
@@ -257,4 +257,4 @@ Section Dirs.
   Qed.
 End Dirs.
 
-Print Assumptions ug_dirs_spec.
+Print Assumptions up_ug_dirs_spec.
